@@ -532,6 +532,7 @@ def _mod(x, m):
     r = c.fresh('modr')
     c.assumptions += [x.e == z3.ToReal(k) * mt.e + r, r >= 0, r < mt.e]
     c.mods += 1
+    c.modk = getattr(c, 'modk', []) + [k]
     return Term(r)
 
 
